@@ -23,8 +23,8 @@ RULE = ("all written rule trees with <=k branches (root with/without own conclus
 ASSUMPTIONS = ["two refinement siblings in one block, next_rule inside a refinement or alternative block, an alternative "
                "written after a next_rule in the same block, and conclusions not covering the branch's variables are "
                "outside the statement (it does not define them)"]
-BOUNDS = {"quick": {"branches": 6, "branches_two_variables": 5, "branches_condition_styles": 4, "branches_two_blocks": 4},
-          "thorough": {"branches": 7, "branches_two_variables": 6, "branches_condition_styles": 5, "branches_two_blocks": 5}}
+BOUNDS = {"quick": {"branches": 6, "branches_two_variables": 5, "branches_condition_styles": 4, "branches_two_blocks": 4, "branches_statement_order": 5},
+          "thorough": {"branches": 7, "branches_two_variables": 6, "branches_condition_styles": 5, "branches_two_blocks": 5, "branches_statement_order": 6}}
 CHUNK = 20
 RECYCLE_CHUNKS = 10
 BUDGET_S = {"quick": 900, "thorough": 8000}
@@ -112,6 +112,13 @@ def cases(tier, seed):
                 continue
             for style in STYLES:
                 out.append(("style", style, b))
+    # the statements of every block written in another order: the refinement after the first follow-up / after all
+    # follow-ups (the relative order of the alternatives, which the statement makes significant, stays as it is)
+    for n in range(3, BOUNDS[tier]["branches_statement_order"] + 1):
+        for b in blocks(n, "root"):
+            if has_refinement_and_followup(b):
+                for order in ("ref_after_first_followup", "ref_last"):
+                    out.append(("order", order, b))
     # the tree written in two `with query:` blocks, split after every root-level statement
     for n in range(2, BOUNDS[tier]["branches_two_blocks"] + 1):
         for b in blocks(n, "root"):
@@ -123,6 +130,13 @@ def cases(tier, seed):
                 if b[0] and b[1] is not None:
                     out.append(("blocks", -2, b))  # follow-ups and conclusion first; refinement in the second block
     return out
+
+
+def has_refinement_and_followup(block):
+    has_c, ref, fol = block
+    if ref is not None and fol:
+        return True
+    return (ref is not None and has_refinement_and_followup(ref)) or any(has_refinement_and_followup(f) for _, f in fol)
 
 
 STYLES = {"bare": lambda i: "bare", "pred": lambda i: "pred", "bare_even": lambda i: "bare" if i % 2 == 0 else "cmp",
@@ -161,7 +175,7 @@ class RSide:
         return self.name
 
 
-def build_and_run(block, two_vars=False, style=None, split=None):
+def build_and_run(block, two_vars=False, style=None, split=None, order=None):
     from krrood.entity_query_language.entity import entity, let, inference, exists, and_
     from krrood.entity_query_language.quantify_entity import an
     from krrood.entity_query_language.conclusion import Add
@@ -205,16 +219,23 @@ def build_and_run(block, two_vars=False, style=None, split=None):
                 Add(v, inference(ROut)(tag=i, p=x, q=y))
             else:
                 Add(v, inference(ROut)(tag=i, p=x))
-        if ref is not None:
-            with refinement(cond(ref[0])):
-                body(ref)
-        for kind, fb in fol:
+        ref_at = 0 if order is None or ref is None else (min(1, len(fol)) if order == "ref_after_first_followup" else len(fol))
+
+        def write_refinement():
+            if ref is not None:
+                with refinement(cond(ref[0])):
+                    body(ref)
+        for j, (kind, fb) in enumerate(fol):
+            if j == ref_at:
+                write_refinement()
             if kind == "alt":
                 with alternative(cond(fb[0])):
                     body(fb)
             else:
                 with next_rule(cond(fb[0])):
                     body(fb)
+        if ref_at >= len(fol):
+            write_refinement()
 
     if split is None:
         with query:
@@ -262,6 +283,9 @@ def run_case(block):
         style, block = block[1], block[2]
     elif block[0] == "blocks":
         split, block = block[1], block[2]
+    order = None
+    if block[0] == "order":
+        order, block = block[1], block[2]
     k = rdr.size(block)
     text = "\n".join(["with query(c0):"] + ["    " + l for l in rdr.show(block)])
     if split is not None:
@@ -269,10 +293,13 @@ def run_case(block):
                "first the follow-ups, then - in the second block - the root's conclusion and refinement" if split == -1 else
                "first the follow-ups and the root's conclusion, then - in the second block - the root's refinement")
         text = f"[written in two `with query:` blocks: {how}]\n" + text
+    if order:
+        text = ("[in every block the refinement is written %s]\n" % ("after the first follow-up" if order == "ref_after_first_followup"
+                                                                      else "after all follow-ups")) + text
     if style:
         text = f"[conditions written as: {', '.join('c%d=%s' % (i, STYLES[style](i)) for i in range(k))}]\n" + text
     try:
-        dom, got, k = build_and_run(block, two_vars, style, split)
+        dom, got, k = build_and_run(block, two_vars, style, split, order)
     except Exception as e:
         res.failures.append(Failure("crash", f"{text}\n{type(e).__name__}: {e}"))
         return res
@@ -297,9 +324,9 @@ def run_case(block):
     res.evaluations = len(dom)
     res.outcome_key = tuple(sorted((n, tuple(t)) for n, t in got.items()))
     if k >= 2:
-        res.nontrivial_key = (two_vars, style, split, block)
+        res.nontrivial_key = (two_vars, style, split, order, block)
     res.features = {"branches:%d" % k, "two_vars" if two_vars else "one_var", "style:%s" % (style or "cmp"),
-                    "two-blocks" if split is not None else "one-block"} | {"has:" + kk for kk in kinds_in(block)}
+                    "two-blocks" if split is not None else "one-block", "order:%s" % (order or "ref_first")} | {"has:" + kk for kk in kinds_in(block)}
     if wrong:
         n, g, e = wrong[0]
         res.failures.append(Failure("wrong-conclusions", f"{text}\nfor the binding with condition values {n[1:]}: inferred tags {g}, "
@@ -448,7 +475,35 @@ def _m_shared_dedup():
     C.ConclusionSelector.update_conclusion = update_conclusion
 
 
-MUTANTS = {"climb_once": _m_climb_once, "shared_dedup": _m_shared_dedup}
+def _m_no_skip_of_wrapping_refinements():
+    # alternative_or_next before the C08-F9 fix: a block that is already wrapped by its refinement takes the new branch itself
+    from krrood.entity_query_language import rule as R
+    from krrood.entity_query_language.symbolic import SymbolicExpression, BinaryOperator
+    from krrood.entity_query_language.conclusion_selector import ExceptIf, Alternative, Next
+    from krrood.entity_query_language.enums import RDREdge
+
+    def alternative_or_next(type_, *conditions):
+        new_branch = R._branch_conditions(*conditions)
+        current_node = SymbolicExpression._current_parent_()
+        if isinstance(current_node._parent_, (Alternative, Next)):
+            current_node = current_node._parent_
+        while isinstance(current_node._parent_, (Alternative, Next, ExceptIf)) and current_node is current_node._parent_.left:
+            current_node = current_node._parent_
+        prev_parent = current_node._parent_
+        current_node._parent_ = None
+        root = (Alternative if type_ == RDREdge.Alternative else Next)(current_node, new_branch)
+        new_branch._node_.weight = type_
+        root._parent_ = prev_parent
+        if isinstance(prev_parent, BinaryOperator):
+            if prev_parent.left is current_node:
+                prev_parent.left = root
+            else:
+                prev_parent.right = root
+        return root.right
+    R.alternative_or_next = alternative_or_next
+
+
+MUTANTS = {"no_skip_of_wrapping_refinements": _m_no_skip_of_wrapping_refinements, "climb_once": _m_climb_once, "shared_dedup": _m_shared_dedup}
 
 
 def apply_mutant(name):
